@@ -31,7 +31,8 @@
 
    The recursion of CleanNode follows input -> output edges, so its depth is bounded by the number
    of statements on acyclic graphs; [clean_node] takes that as fuel and returns None when it runs
-   out (HistFaithfulProofs.clean_node_fuel: unreachable for [topo_ordered] graphs). *)
+   out (unreachable for [topo_ordered] graphs: HistFaithfulProofs.clean_node_spec,
+   build_f_never_out_of_fuel). *)
 From NinjaV Require Import Engine.CrashDefs.
 From NinjaV Require Import Base.Bytes Engine.ScanDefs Engine.ScanSpec Engine.HistDefs.
 Local Open Scope Z_scope.
